@@ -33,7 +33,10 @@ LEVEL_NOTE = ("Coq 8.16.1 kernel + Coquelicot; standard-library real-number axio
               "derivatives of orders 1..4 on an open interval containing the integration range and the factor-four bound on the fourth one.")
 TOL = (1e-11, 1e-300)
 TRUSTED = ["the integrand call-backs are prefix expressions evaluated by harness/common.hpp and ocaml/common.ml with the same libm",
-           "the non-convergence warning is observed as the text 'did not converge' on the library's stdout"]
+           "the non-convergence warning is observed as the text 'did not converge' on the library's stdout; for an integrand that calls the "
+           "integrator itself the harness reads and then discards what the inner call printed, so that only the outer call's warning remains",
+           "a nested request whose outer integrand is evaluated more than 256 times beyond the bound of the property is stopped by the harness "
+           "(exception thrown by the integrand) and reported with the count reached"]
 ASSUMPTIONS = ["the 4*eps clause is read as applying when Integrate raises no non-convergence warning (with a forced leaf no bound in terms of eps can hold)"]
 
 
@@ -362,6 +365,12 @@ def gen_seq(rng, dmax, cap):
             e_eff = py_find_epsilon(f, min(la, lb), max(la, lb), 1e-9) if kind == "M" else eps
             if not (e_eff == e_eff) or simulate_count(f, la, lb, e_eff, DEFAULT_DEPTH, cap) is None: kind = "I"
         et = "@" if use_last else hx(eps)
+        if 0.5 <= pattern < 0.62 and j in (1, 2) and calls[0][0] == "I":
+            # a request, the same request abandoned by its integrand somewhere in the tree, the same request again
+            _, la, lb, eps, depth, fm, pr, fxx = calls[0]; et = hx(eps)
+            kind = "X" if j == 1 else "I"
+        elif 0.5 <= pattern < 0.62 and j == 0:
+            kind = "I"; et = hx(eps); depth = rng.choice([1, 2, 3, 4, 6, dmax])
         if kind == "I": text.append(f"I {hx(la)} {hx(lb)} {et} {depth} " + fam_text(fm, pr, fxx))
         elif kind == "X":      # the integrand abandons the integration at its k-th evaluation (first values, somewhere in the tree, at the very end)
             kx = rng.choice([1, 2, 3, 4, 5, 6, 7, 9, rng.randint(1, 40), 2 ** (max(depth, 0) + 2) + 1, 2 ** (max(depth, 0) + 2)])
@@ -566,8 +575,8 @@ def generate(rng, tier):
     for k in range(8000 if big else 500):
         cs.append(gen_seq(rng, dmax, 20000 if big else 3000))
     # integrands that call the integrator themselves
-    for k in range(6000 if big else 320):
-        c = gen_nest(rng, 60000 if big else 6000)
+    for k in range(4000 if big else 320):
+        c = gen_nest(rng, 20000 if big else 6000)
         if c is not None: cs.append(c)
     # equal limits, depth <= 0, eps = 0, nan integrand
     for _ in range(200 if big else 40):
